@@ -125,6 +125,7 @@ def ensure_process():
     if _TMP_PID != os.getpid():
         root = _ROOT or tempfile.mkdtemp(prefix="verif-c11-", dir="/var/tmp")
         L.common._TEMP_DIR = tempfile.mkdtemp(prefix=f"lib-{os.getpid()}-", dir=root)
+        world.adopt(L.common, "_TEMP_DIR")
         _TMP_PID = os.getpid()
         gc.collect()
         gc.freeze()
